@@ -440,3 +440,127 @@ pub fn raw_bytes(r: &mut Rng) -> Vec<u8> {
     let n = r.below(40);
     (0..n).map(|_| if r.chance(1, 3) { *r.pick(b" ->:#()\n\r0123") } else { r.below(256) as u8 }).collect()
 }
+
+/// corruptions of a valid cache file (C12): field edits, record swaps/duplicates, bit flips,
+/// string damage, random body behind a valid header
+pub fn corrupt(r: &mut Rng, valid: &[u8]) -> Vec<u8> {
+    let mut b = valid.to_vec();
+    if b.len() < 24 {
+        return b;
+    }
+    let rd = |b: &[u8], i: usize| u32::from_le_bytes([b[i], b[i + 1], b[i + 2], b[i + 3]]);
+    let nc = rd(&b, 8) as usize;
+    let nm = rd(&b, 12) as usize;
+    let np = rd(&b, 16) as usize;
+    let al = |x: usize| (x + 7) / 8 * 8;
+    let cls0 = 24;
+    let mem0 = al(cls0 + 28 * nc);
+    let par0 = al(mem0 + 36 * nm);
+    let str0 = al(par0 + 36 * np);
+    let n_edits = 1 + r.below(3);
+    for _ in 0..n_edits {
+        match r.below(10) {
+            0 | 1 | 2 | 3 => {
+                // any 32-bit field := boundary value
+                let words = b.len().min(str0) / 4;
+                if words == 0 {
+                    continue;
+                }
+                let w = r.below(words);
+                let count = *r.pick(&[nc, nm, np, b.len().saturating_sub(str0)]) as u32;
+                let v = *r.pick(&[0u32, 1, 2, 7, count.wrapping_sub(1), count, count.wrapping_add(1), 1 << 31, u32::MAX - 1, u32::MAX]);
+                b[4 * w..4 * w + 4].copy_from_slice(&v.to_le_bytes());
+            }
+            4 => {
+                // swap two records of a section
+                let (start, size, n) = *r.pick(&[(cls0, 28, nc), (mem0, 36, nm), (par0, 36, np)]);
+                if n >= 2 {
+                    let (i, j) = (r.below(n), r.below(n));
+                    for k in 0..size {
+                        if start + j * size + k < b.len() && start + i * size + k < b.len() {
+                            b.swap(start + i * size + k, start + j * size + k);
+                        }
+                    }
+                }
+            }
+            5 => {
+                // duplicate a record over its neighbour
+                let (start, size, n) = *r.pick(&[(cls0, 28, nc), (mem0, 36, nm), (par0, 36, np)]);
+                if n >= 2 {
+                    let i = r.below(n - 1);
+                    for k in 0..size {
+                        if start + (i + 1) * size + k < b.len() {
+                            b[start + (i + 1) * size + k] = b[start + i * size + k];
+                        }
+                    }
+                }
+            }
+            6 => {
+                let pos = r.below(b.len());
+                b[pos] ^= 1 << r.below(8);
+            }
+            7 => {
+                // damage the string section: length prefixes and UTF-8
+                if str0 < b.len() {
+                    let pos = str0 + r.below(b.len() - str0);
+                    b[pos] = *r.pick(&[0u8, 0x80, 0xff, 0xc3, 0x7f, 0x81, 1]);
+                }
+            }
+            8 => {
+                // random body behind the valid header
+                for x in b.iter_mut().skip(24) {
+                    if r.chance(1, 3) {
+                        *x = r.below(256) as u8;
+                    }
+                }
+            }
+            _ => {
+                let keep = r.below(b.len() + 1);
+                b.truncate(keep.max(24));
+            }
+        }
+    }
+    b
+}
+
+pub fn write_cache(mapping: &[u8]) -> Option<Vec<u8>> {
+    guarded(|| {
+        let mut buf = Vec::new();
+        ProguardCache::write(&ProguardMapping::new(mapping), &mut buf).ok().map(|_| buf)
+    })
+    .flatten()
+}
+
+/// cache queries (lowercase ops, answered by the buffer of the preceding X line)
+pub fn emit_cache_queries(out: &mut Vec<String>, mapping: &[u8], r: &mut Rng, per_kind: usize) {
+    let u = universe(mapping);
+    let classes = class_queries(&u, r);
+    let mut pairs: Vec<(String, String)> = u.methods.clone();
+    pairs.push(("zz.unknown".into(), "m".into()));
+    for c in u.classes.iter().take(3) {
+        pairs.push((c.clone(), "nosuch".into()));
+    }
+    for _ in 0..per_kind {
+        let c = r.pick(&classes).clone();
+        out.push(format!("k {}", hex(c.as_bytes())));
+        let (c, m) = r.pick(&pairs).clone();
+        out.push(format!("t {} {}", hex(c.as_bytes()), hex(m.as_bytes())));
+    }
+    let lines = line_set(&u, r, false);
+    for _ in 0..(3 * per_kind) {
+        let (c, m) = r.pick(&pairs).clone();
+        let l = *r.pick(&lines);
+        let f = if r.chance(1, 2) { "~".to_string() } else { hex(b"SF.java") };
+        out.push(format!("l {} {} {} {}", hex(c.as_bytes()), hex(m.as_bytes()), l, f));
+    }
+    let mut args = u.args.clone();
+    args.push("no.such".into());
+    for _ in 0..per_kind {
+        let (c, m) = r.pick(&pairs).clone();
+        out.push(format!("p {} {} {}", hex(c.as_bytes()), hex(m.as_bytes()), hex(r.pick(&args).as_bytes())));
+    }
+    let t = crate::trace::gen_text(r, &u);
+    out.push(format!("s {}", hex(t.as_bytes())));
+    let g = crate::trace::gen_signature(r, &u);
+    out.push(format!("g {}", hex(g.as_bytes())));
+}
